@@ -65,6 +65,18 @@ CHECKS = {
             'common sub-sample is traced by every worker under a different PYTHONHASHSEED and must agree.',
             'Trusted: ref/bind.py, sentinel identity. URL values are compared by equality.',
             'DESIGN.md section 5, C02'),
+    'C03': ('E1-product-enumerator',
+            'bounded-exhaustive enumeration of middleware stacks x fault scripts on the real chain, event traces '
+            'compared with a symbolic onion simulation',
+            'All stacks of <=3 (thorough 4) middlewares over three placement levels and four type kinds (merge/dedupe '
+            'structure, incl. the same object placed twice), all subsets of phase functions for <=2 (thorough 3) '
+            'middlewares crossed with one of five fault scripts at every chain position and three endpoint result '
+            'kinds; the enter/leave/next-returned/next-raised sequence with object identities must equal '
+            'ref/onion.py. Order and propagation are control-flow properties of generated code, so every small stack '
+            'is executed rather than sampled.',
+            'Trusted: ref/onion.py, ref/bind.merged_stack. Duplicates of a unique type inside one list are not '
+            'generated (pinned by the test suite, outside the merge rule).',
+            'DESIGN.md section 5, C03'),
 }
 
 NOT_YET = 'check not built yet in this revision of /verif (planned: bounded exhaustive exploration, see DESIGN.md section 5)'
